@@ -801,7 +801,7 @@ impl WriterSet {
             self.segment_size,
         )?;
 
-        let (closed_event_index, closed_partition_index, closed_stream_index) = {
+        {
             let mut indexes = self.indexes.blocking_write();
             for PendingIndex {
                 event_id,
@@ -841,25 +841,27 @@ impl WriterSet {
             self.index_segment_id
                 .store(self.bucket_segment_id.segment_id, Ordering::Release);
 
-            (
-                closed_event_index,
-                closed_partition_index,
-                closed_stream_index,
-            )
-        };
+            #[cfg(sierradb_verif)]
+            verif::pause("rollover.indexes_swapped");
 
-        #[cfg(sierradb_verif)]
-        verif::pause("rollover.indexes_swapped");
-
-        self.reader_pool.add_bucket_segment(
-            old_bucket_segment_id,
-            &old_reader,
-            Some(&closed_event_index),
-            Some(&closed_partition_index),
-            Some(&closed_stream_index),
-        );
-        self.reader_pool
-            .add_bucket_segment(self.bucket_segment_id, &self.reader, None, None, None);
+            // Still under the write lock: hand the sealed segment's indexes to the reader pool
+            // before any reader can see the new, empty live indexes. Otherwise lookups in
+            // between find the events neither in the live indexes nor in the reader pool.
+            self.reader_pool.add_bucket_segment(
+                old_bucket_segment_id,
+                &old_reader,
+                Some(&closed_event_index),
+                Some(&closed_partition_index),
+                Some(&closed_stream_index),
+            );
+            self.reader_pool.add_bucket_segment(
+                self.bucket_segment_id,
+                &self.reader,
+                None,
+                None,
+                None,
+            );
+        }
 
         Ok(())
     }
